@@ -45,13 +45,15 @@ TRUSTED = [
     "random_state and treated as a caller parameter",
     "np.argsort's order among equal noisy class counts (GaussianNB count repair) is implementation defined; the Lean "
     "model sorts stably and fits with tied noisy counts that need repair are skipped in the trace comparison",
+    "forest/tree: forest_model_privloss (<= 2 eps; 0 when the record keeps leaf and class) is proved for the Lean plan, "
+    "whose PermuteAndFlip input is the leaf's class counts packed base n+1; the theorem decodes it and measures it with "
+    "the convention of displacement() below (DPL/Model/PrivLossVec.lean: d = max_j |du_j|, weight = (max increase + max "
+    "decrease)/sensitivity). That the real tree's `apply` is the model's Tree.leafOf is tied by the trace correspondence "
+    "(packed counts of every leaf compared exactly), not proved",
 ]
 UNPROVED = [
     "PCA: the per-eigenvalue displacement and the spectral-norm displacement of the projected covariance are measured "
     "on the implementation for every generated neighbour; the nuclear-norm bound itself is a cited hypothesis",
-    "forest/tree: forest_model_privloss is proved for the Lean plan in the vector-input calculus (DPL/Model/PrivLossVec: "
-    "packed utility decoded, weight (max increase + max decrease)/sensitivity; <= 2 eps, 0 when the record keeps leaf and "
-    "class); that the real tree's `apply` is the model's `Tree.leafOf` is tied by the trace correspondence only",
     "LogisticRegression: only the epsilon/n_classes split and the data_sensitivity >= row norm relation (C17 has the "
     "mechanism)",
 ]
@@ -923,3 +925,15 @@ def replay(ctx, data):
 
 
 WITNESSES = {}
+
+
+def generate(ctx):
+    """translator tie: the epsilon splits and group-sum sensitivities are re-read from /repo's AST on every run, translated
+    to Lean terms over ℝ and proved equal to the expressions of the model's plans (harness/anchors.py)"""
+    from .. import anchors
+    from ..shim import REPO
+    r = anchors.build(REPO, "C08", ["DPL.Model.PlanModels"], anchors.c08_specs(), opens="")
+    ctx.count("formula_anchors", r["obligations"])
+    if r["errors"]:
+        r["error"] = "; ".join(r["errors"])
+    return r
